@@ -2,6 +2,7 @@
 import itertools
 
 from mc import enum2d
+from mc.engine import observe
 from mc.props.common2d import build, call, check_dbn, info, seq_of, viol
 from mc.ref import ref2d
 
@@ -73,9 +74,21 @@ def mapping_cases(tier):
             yield dict(c, mapping=True, split=split, cli=(k % (8 if q else 3) == 0))
 
 
+CORPUS_Q = ["1ehz-assembly-1.cif", "4qln.cif", "1E7K_1_C.cif", "1A1T_1_B.cif", "6g90_1.cif", "1HMH_1_E.cif"]
+CORPUS_T = CORPUS_Q + ["4qln.pdb", "1DFU_1_M-N.cif", "4WTI_1_T-P.cif", "8btk_B7.cif", "1a9n.cif", "488d.pdb", "1gid.cif.gz", "6INQ.cif", "1E7K_1_C_modified.cif"]
+
+
+def corpus_cases(tier):
+    """The annotator route (third observation point): real structures through extract_secondary_structure(all_dot_brackets=True) and annotator.main -a."""
+    for f in (CORPUS_Q if tier == "quick" else CORPUS_T):
+        for gaps in (False, True):
+            yield dict(file=f, gaps=gaps)
+
+
 def families(tier):
     q = tier == "quick"
     fams = [
+        ("annotator", lambda: corpus_cases(tier), 1),
         ("mapping", lambda: mapping_cases(tier), 1),
         ("M", lambda: enum2d.M(10 if q else 11), 1),
         ("D", lambda: enum2d.D(4 if q else 5), 1),
@@ -212,9 +225,91 @@ def _mapping_cli(case, specs, al, out):
         out.append(viol("adapter-cli:output-differs", "adapter.main --all-dot-brackets did not print exactly Mapping2D3D.all_dot_brackets", buf.getvalue()[:400], "\n".join(al)[:400]))
 
 
+def run_annotator(case):
+    """extract_secondary_structure(..., all_dot_brackets=True) on a corpus structure: the returned notations, read as one structure over the BPSEQ
+    the same call returns, must be exactly the greedy-stable assignments of that BPSEQ; annotator.main -a must print exactly these notations."""
+    import contextlib
+    import io
+    import os
+    import sys
+
+    from rnapolis import annotator
+
+    from mc import corpus
+    from mc.props import ann_families as fam
+
+    out = []
+    s3 = fam.corpus_structure(case["file"])
+    r = call("extract_secondary_structure", lambda: annotator.extract_secondary_structure(s3, None, case["gaps"], True), out)
+    if r is None:
+        return dict(nontrivial=True, outcome="annotator:exc", violations=out)
+    s2d, dbs = r
+    lines = [ln.split() for ln in s2d.bpseq.splitlines() if ln.strip()]
+    n = len(lines)
+    seq = "".join(f[1] for f in lines)
+    pairs = sorted((int(f[0]), int(f[2])) for f in lines if int(f[2]) > int(f[0]))
+    stems = ref2d.stems_of(pairs)
+    graph = ref2d.stem_graph(stems)
+    knotted = any(graph[v] for v in graph)
+    maxcomp = max([len(c) for c in ref2d.components(graph)] or [0])
+    if maxcomp > 8:
+        return dict(nontrivial=False, outcome="annotator:group-larger-than-8", violations=out)
+    want = ref2d.all_greedy_stable(stems, graph)
+    dbs = list(dbs)
+    got = set()
+    bad = False
+    if len(set(dbs)) != len(dbs):
+        out.append(viol("annotator:repeated-member", "extract_secondary_structure(all_dot_brackets=True) repeats a notation (%s)" % case["file"], dbs[:6], None))
+    for t in dbs:
+        sq, st, ch = _strands_to_structure(t)
+        if sq != seq or len(st) != n:
+            out.append(viol("annotator:strands", "%s: a notation does not concatenate to the BPSEQ sequence" % case["file"], t[:300], seq))
+            bad = True
+            break
+        dec, probs = ref2d.decode(st)
+        if probs or sorted(map(tuple, dec)) != pairs:
+            out.append(viol("annotator:decoded-pairs-differ", "%s: a notation does not decode to the BPSEQ pairs" % case["file"], st, None))
+            bad = True
+            break
+        lev = ref2d.stem_levels(stems, dec)
+        if None in lev:
+            out.append(viol("annotator:stem-split-across-levels", "a stem is written on several levels", st, stems))
+            bad = True
+            break
+        got.add(tuple(lev))
+    if not bad and got != want:
+        missing, extra = sorted(want - got), sorted(got - want)
+        out.append(viol("annotator:set-differs:%s%s" % ("missing" if missing else "", "+extra" if extra else ""),
+                        "%s (gaps=%s): extract_secondary_structure(all_dot_brackets=True) returned %d notation(s), the greedy-stable assignments are %d: missing=%s extra=%s"
+                        % (case["file"], case["gaps"], len(got), len(want), missing[:3], extra[:3]), sorted(got)[:10], sorted(want)[:10]))
+    if s2d.dotBracket not in dbs:
+        out.append(viol("annotator:optimal-not-member", "%s: Structure2D.dotBracket is not among the returned notations" % case["file"], dbs[:4], s2d.dotBracket))
+    # command line
+    path = os.path.join(corpus.TESTS, case["file"])
+    old = sys.argv
+    sys.argv = ["annotator", path, "-a"] + (["-f"] if case["gaps"] else [])
+    buf = io.StringIO()
+    try:
+        with contextlib.redirect_stdout(buf), contextlib.redirect_stderr(io.StringIO()):
+            rc = observe(annotator.main)
+    finally:
+        sys.argv = old
+    if rc[0] == "exc" and not rc[1].startswith("exception:SystemExit"):
+        out.append(viol("annotator-cli:" + rc[1], "annotator.main -a raised " + rc[2]))
+    elif buf.getvalue().strip("\n") != "\n".join(dbs):
+        out.append(viol("annotator-cli:output-differs", "%s: annotator -a did not print exactly the notations of extract_secondary_structure(all_dot_brackets=True)" % case["file"],
+                        buf.getvalue()[:400], "\n".join(dbs)[:400]))
+    u = {}
+    for v in out:
+        u.setdefault(v["signature"], v)
+    return dict(nontrivial=knotted, outcome="annotator:members=%d stems=%d" % (min(len(dbs), 20), min(len(stems), 12)), violations=list(u.values()))
+
+
 def run_case(case):
     if case.get("mapping"):
         return run_mapping(case)
+    if "file" in case:
+        return run_annotator(case)
     out = []
     seq = seq_of(case)
     stems, graph, knotted, maxcomp = info(case)
